@@ -98,7 +98,7 @@ def main(argv=None):
         jobs = runner.plan_jobs(engine, args.tier, base_seed, args.scale)
         idxs = [int(x) for x in args.digests.split(",") if x != ""]
         sel = [(jobs[i][0], jobs[i][1], jobs[i][2], False) for i in idxs]
-        d = runner.digests_for(factory, frozenset(known), sel, 4)
+        d = runner.digests_for(factory, frozenset(known), sel, min(8, max(1, len(sel))))
         print("DIGESTS " + json.dumps({str(k): list(v) for k, v in d.items()}))
         return 0
 
